@@ -89,8 +89,7 @@ Definition chk_post (fl : kflags) (s : ipstate) (pods : list (str * str)) (ip : 
 (** several entries in ONE request: the handler treats them one after the other, each on its own; the answer
     is 202 as soon as one of them was not released *)
 Definition post_batch (fl : kflags) (s : ipstate) (pods : list (str * str)) (es : list (str * list str)) : bool * ipstate :=
-  fold_left (fun acc e => let '(o, s') := post_entry fl (snd acc) pods (fst e) (mk_entry (snd e)) in
-                          (fst acc || rel_reported_unreleased o, s')) es (false, s).
+  post_entries fl s pods (map (fun e => (fst e, mk_entry (snd e))) es).
 Definition chk_post_batch (fl : kflags) (s : ipstate) (pods : list (str * str)) (es : list (str * list str))
            (ocode202 : bool) (ostate : ipstate) : bool :=
   let '(u, s') := post_batch fl s pods es in Bool.eqb u ocode202 && state_eqb s' ostate.
